@@ -7,7 +7,7 @@ LEAN_MODULE = "HexProps.C14"
 SCOPE = []
 ORACLE_RULE = "C14: see hx/oracles/framework.py (c14_case): random indicator spec (26 kinds + Amorph wrappers) x stream style x timeframe/fill x schedule on the real code"
 ASSUMPTIONS = ["TZ=UTC for this check"]
-PARTIAL = 'proved for ALL 27 classes as standalone objects, on the base timeframe AND on every collapsing timeframe with or without gap filling (every MgrSpec): programs of append / calculate / calculate_index(+-i) / purge / recalculate converge to the batch result with that configuration (C14_trees_all, C14_trees_mgr, C14_trees_tf: returns-iff with the same candles; leaf kinds on the base timeframe: equality in PyM); calculate_index(i) reproduces the finished state at EVERY index -len <= i < len, index 0 and the still-forming bucket after a merge included; calculate idempotent, purge restores the raw / collapsed stream, recalculate reproduces after any program. INSIDE A HEXITAL: any program of facade operations (append, calculate / purge / recalculate / calculate_index named or unnamed, add_indicator / remove_indicator of other members) followed by calculate() leaves a member with the batch result over everything received, on every MgrSpec incl. Heikin-Ashi (C14_member, C14_member_hexital, C14_member_tf). Round 7: the three Heikin-Ashi managers stated explicitly (C14_trees_ha / _haCfg; calculate_index_reproduces_trees_haCfg); LIFESPAN managers: the literal statement is false for calculate() after a pop (witness replayed: the batch state is the one over the candles currently held - C14_trees_lifespan, recalculate_eq_batch_held_lifespan; for recalculate() it is even the batch run with the same lifespan over everything received). Round 8: lifespan combined with a timeframe (with / without fill): recalculate() after ANY program = the batch run over the candles then held, for all 27 classes, no hypothesis (recalculate_eq_batch_held_lifespan_tf, recalculate_eq_batch_held_anycfg for every configuration); the literal statement (final calculate() = batch over the held candles) is false there as on the base timeframe (LifeTfDemo.final_ne_batch_held, replayed on the library: readings computed before a pop keep their longer history). Open: the program-level statement for timeframe + lifespan (final calculate() = batch over the collapsed stream minus the popped buckets), the observed member itself removed / re-added / added late, explicit end_index: correspondence + search'
+PARTIAL = 'proved for ALL 27 classes as standalone objects, on the base timeframe AND on every collapsing timeframe with or without gap filling (every MgrSpec): programs of append / calculate / calculate_index(+-i) / purge / recalculate converge to the batch result with that configuration (C14_trees_all, C14_trees_mgr, C14_trees_tf: returns-iff with the same candles; leaf kinds on the base timeframe: equality in PyM); calculate_index(i) reproduces the finished state at EVERY index -len <= i < len, index 0 and the still-forming bucket after a merge included; calculate idempotent, purge restores the raw / collapsed stream, recalculate reproduces after any program. INSIDE A HEXITAL: any program of facade operations (append, calculate / purge / recalculate / calculate_index named or unnamed, add_indicator / remove_indicator of other members) followed by calculate() leaves a member with the batch result over everything received, on every MgrSpec incl. Heikin-Ashi (C14_member, C14_member_hexital, C14_member_tf). Round 7: the three Heikin-Ashi managers stated explicitly (C14_trees_ha / _haCfg; calculate_index_reproduces_trees_haCfg); LIFESPAN managers: the literal statement is false for calculate() after a pop (witness replayed: the batch state is the one over the candles currently held - C14_trees_lifespan, recalculate_eq_batch_held_lifespan; for recalculate() it is even the batch run with the same lifespan over everything received). Round 8: lifespan combined with a timeframe (with / without fill): recalculate() after ANY program = the batch run over the candles then held, for all 27 classes, no hypothesis (recalculate_eq_batch_held_lifespan_tf, recalculate_eq_batch_held_anycfg for every configuration); the literal statement (final calculate() = batch over the held candles) is false there as on the base timeframe (LifeTfDemo.final_ne_batch_held, replayed on the library: readings computed before a pop keep their longer history). And the PROGRAM-LEVEL statement for timeframe (+ fill) + lifespan, full operation alphabet, all 27 classes (C14_trees_lifespan_tf, C14_trees_lifespan_tf_fill): after any program the final calculate() is the batch run over the collapsed stream from the last purge point minus the popped buckets, under the retention condition of C15 (each popping append keeps treeLook closed buckets; the state in which a popped manager holds only the still-forming bucket is excluded - there the Heikin-Ashi / engine twin has no predecessor). Open: the observed member itself removed / re-added / added late, explicit end_index: correspondence + search'
 
 
 def oracle(ctx):
